@@ -20,8 +20,8 @@ def check(run, tier, seed, replay=None, only=None):
     top = 400 if quick else 1400
     stages = []
     for s in range(4 if quick else 12):
-        stages.append(("tuner-%d" % s, ["--mode", "tuner", "--budget", 25 if quick else 60, "--seed", seed * 100 + s]))
-        stages.append(("hf-%d" % s, ["--mode", "hf", "--budget", 15 if quick else 50, "--seed", seed * 100 + 20 + s]))
+        stages.append(("tuner-%d" % s, ["--mode", "tuner", "--budget", 40 if quick else 80, "--seed", seed * 100 + s]))
+        stages.append(("hf-%d" % s, ["--mode", "hf", "--budget", 30 if quick else 80, "--seed", seed * 100 + 20 + s]))
     k = 4 if quick else 12
     for s in range(k):
         stages.append(("hilbert-%d" % s, ["--mode", "hilbert", "--a", 3 + (top * s) // k, "--b", 3 + (top * (s + 1)) // k, "--seed", seed * 100 + 40 + s]))
